@@ -23,12 +23,14 @@ MCConnStreams == [c \in Conns |-> ProfStreams[Profile][c]]
 MCProtTagsOf == [p \in Peers |-> IF p \in Prot2 THEN {"x", "y"} ELSE IF p \in Prot1 THEN {"x"} ELSE {}]
 
 \* JSON-able projection of the VIEW'd state, kept compact because every printed edge carries two of
-\* them: << [peer |-> <<kind, conns, tags, value, age, protection tags, decaying tag>>], connCount, phase, dph >>
-St == << [p \in Peers |-> <<kind[p], cs[p], tg[p], val[p], age[p], prot[p], dec[p]>>], count, phase, dph >>
+\* them: << [peer |-> <<kind, conns, tags, value, age, protection tags, decaying tag>>], connCount, phase, dph,
+\*          trim in progress <<on, candidates, stale, target, foreign steps>> >>
+St == << [p \in Peers |-> <<kind[p], cs[p], tg[p], val[p], age[p], prot[p], dec[p]>>], count, phase, dph,
+         <<tr.on, tr.c, tr.s, tr.n, tr.b>> >>
 EmitEdge == PrintT(<<"VFEDGE", ToJson([s |-> St, op |-> op', t |-> St'])>>)
 \* the instance's parameters, printed once so that the driver hands the harness exactly what TLC used
 Conf == [low |-> Low, high |-> High, grace |-> Grace, maxage |-> MaxAge, silence |-> Silence,
-         decaymax |-> DecayMax, decayevery |-> DecayEvery,
+         decaymax |-> DecayMax, decayevery |-> DecayEvery, split |-> Split,
          peers |-> Peers, tags |-> Tags, prot |-> MCProtTagsOf,
          conns |-> [c \in Conns |-> [p |-> MCConnPeer[c], inb |-> MCConnIn[c], st |-> MCConnStreams[c]]]]
 MCInit == Init /\ PrintT(<<"VFINIT", ToJson(St)>>) /\ PrintT(<<"VFCONF", ToJson(Conf)>>)
